@@ -153,3 +153,43 @@ package core
 //@   ensures[C05] result <==> bal[addr] >= big(amount)
 //@   assigns nothing
 //@   nopanic[C05]
+
+// ---- blockchain.go (C04): lock balance ------------------------------------------------------
+// Every mutex a chain operation takes is released on every return path (also when a database
+// write fails), so a failed write is never followed by a deadlock.
+//@ func BlockChain.SetHead
+//@   requires bc != nil
+//@   ensures[C04] @lockbalance lockdepth(addr(bc.mu)) == old(lockdepth(addr(bc.mu)))
+//@ func BlockChain.FastSyncCommitHead
+//@   requires bc != nil
+//@   ensures[C04] @lockbalance lockdepth(addr(bc.mu)) == old(lockdepth(addr(bc.mu)))
+//@ func BlockChain.ResetWithGenesisBlock
+//@   requires bc != nil
+//@   ensures[C04] @lockbalance lockdepth(addr(bc.mu)) == old(lockdepth(addr(bc.mu)))
+//@ func BlockChain.ExportN
+//@   requires bc != nil
+//@   ensures[C04] @lockbalance lockdepth(addr(bc.mu)) == old(lockdepth(addr(bc.mu)))
+//@ func BlockChain.Rollback
+//@   requires bc != nil
+//@   ensures[C04] @lockbalance lockdepth(addr(bc.mu)) == old(lockdepth(addr(bc.mu)))
+//@ func BlockChain.WriteBlockWithState
+//@   requires bc != nil
+//@   ensures[C04] @lockbalance lockdepth(addr(bc.mu)) == old(lockdepth(addr(bc.mu)))
+//@ func BlockChain.InsertReceiptChain
+//@   requires bc != nil
+//@   ensures[C04] @lockbalance lockdepth(addr(bc.mu)) == old(lockdepth(addr(bc.mu)))
+//@ func BlockChain.InsertHeaderChain
+//@   requires bc != nil
+//@   ensures[C04] @lockbalance lockdepth(addr(bc.chainmu)) == old(lockdepth(addr(bc.chainmu))) && lockdepth(addr(bc.mu)) == old(lockdepth(addr(bc.mu)))
+//@ func BlockChain.SetProcessor
+//@   requires bc != nil
+//@   ensures[C04] @lockbalance lockdepth(addr(bc.procmu)) == old(lockdepth(addr(bc.procmu)))
+//@ func BlockChain.SetValidator
+//@   requires bc != nil
+//@   ensures[C04] @lockbalance lockdepth(addr(bc.procmu)) == old(lockdepth(addr(bc.procmu)))
+//@ func BlockChain.Validator
+//@   requires bc != nil
+//@   ensures[C04] @lockbalance lockdepth(addr(bc.procmu)) == old(lockdepth(addr(bc.procmu)))
+//@ func BlockChain.Processor
+//@   requires bc != nil
+//@   ensures[C04] @lockbalance lockdepth(addr(bc.procmu)) == old(lockdepth(addr(bc.procmu)))
